@@ -269,7 +269,7 @@ def execute(prop, tier, seed, P, replay=None, clear=True):
             if kind == "mc":
                 st = mc_run(consts(peers=g.get("peers", ("p1", "p2")), acts=g["acts"], rich=g.get("rich", ()), maxval=g.get("maxval", 1),
                                    tiny=g.get("tiny", ()), maxreq=g.get("maxreq", 2)),
-                            g["maxlen"], g.get("prefix", "PrefixNone"), timeout=T.get("mc_timeout", 900), workers=4)
+                            g["maxlen"], g.get("prefix", "PrefixNone"), timeout=T.get("mc_timeout", 900), workers=1)  # one worker: strict breadth-first order, so the bounded exploration under the VIEW (and its counts) is the same in every run
                 log("[%s] spec check: %d distinct states, %d transitions" % (prop, st["distinct"], st["generated"]))
                 return st
             if kind == "gen":
